@@ -162,6 +162,13 @@ def regen_symagg(c):
         c.obligation("translator: symmetric-aggregate SQL shapes and the _has_fanout_joins decision table regenerated", False, "translator", repr(e)[-900:])
         return
     try:
+        from translator import gen_required
+        lib.write_if_changed(os.path.join(lib.COQ, "Gen", "Required_gen.v"), gen_required.generate(lib.REPO))
+        same = gen_required.table(lib.REPO) == gen_required.table(lib.REPO, real=True)
+        c.obligation("translator: model list of _find_required_models (315 scripted queries) regenerated; interpreted == the real method under CPython", same, "translator")
+    except Exception as e:
+        c.obligation("translator: model list of _find_required_models regenerated", False, "translator", repr(e)[-900:])
+    try:
         a = gen_symagg.sym_shapes(lib.REPO) == gen_symagg.real_sym_shapes(lib.REPO)
         b = gen_symagg.fanout_table(lib.REPO) == gen_symagg.real_fanout_table(lib.REPO)
         c.obligation("translator validation: interpreted build_symmetric_aggregate_sql / _has_fanout_joins == the real functions under CPython on the same inputs", a and b, "translator",
